@@ -241,7 +241,7 @@ func runC01Multi(c *Ctx, w *ATWorld) {
 			class = "rollbacked_but_not_restored"
 		case !allOK:
 			class = "rollback_reported_failed"
-		case len(w.UndoLogRows()) > 0:
+		case normalUndoRows(w) > 0:
 			class = "undo_log_left"
 		}
 		c.Out.Oracle(cid, class == "", class, fmt.Sprintf("%s | err=%v initial=%s mid=%s final=%s crash=%s", strings.Join(parts, "; "), execErr, initial, mid, final, crash))
@@ -262,4 +262,17 @@ func uniqStrings(xs []string) []string {
 		}
 	}
 	return out
+}
+
+// normalUndoRows counts the undo_log rows in the normal state (log_status 0).  A row in the "global finished"
+// state is the marker a rollback leaves when it found no undo log for the branch (an Exec whose statements
+// selected no row registers a branch with empty lock keys and writes no undo log): not a left-over.
+func normalUndoRows(w *ATWorld) int {
+	n := 0
+	for _, r := range w.UndoLogRows() {
+		if strings.HasSuffix(r, "/0") {
+			n++
+		}
+	}
+	return n
 }
